@@ -144,7 +144,10 @@ func (v *fnVC) instr(b *ssa.BasicBlock, in ssa.Instruction, st *State) {
 		c := st.get(cn, arrSort(sRef, sI64))
 		st.set(cn, sto(c, a, tBV(0, sI64)))
 	case *ssa.MakeChan:
-		v.newRef(i, st)
+		ch := v.newRef(i, st)
+		// the capacity of a channel is fixed when it is made (`cap(ch)` in specifications)
+		e.decl("chcap", "(declare-fun chcap (Int) (_ BitVec 64))")
+		e.assume(tImp(R, mk(sapp("=", sapp("chcap", ch.S), intTo64(v.val(i.Size)).S), sBool)))
 	case *ssa.MakeSlice:
 		a := v.newRef(i, st)
 		ln := v.val(i.Len)
@@ -177,6 +180,10 @@ func (v *fnVC) instr(b *ssa.BasicBlock, in ssa.Instruction, st *State) {
 		v.setVal(i, e.freshConst("sel", e.sortOf(i.Type())))
 	case *ssa.Send:
 		v.notes = append(v.notes, "channel send at "+v.pos(i.Pos())+" (no interleaving semantics)")
+		// ghost count of sends per channel (`sent(ch)` in specifications)
+		ch := v.val(i.Chan)
+		h := st.get("G$chansent", arrSort(sRef, sI64))
+		st.set("G$chansent", sto(h, ch, mk(sapp("bvadd", sapp("select", h.S, ch.S), bvLit(1, 64)), sI64)))
 	case *ssa.Go:
 		v.spawned = append(v.spawned, i)
 		v.goStmt(i, st)
@@ -603,8 +610,9 @@ func (v *fnVC) binop(i *ssa.BinOp, st *State) *T {
 		case token.ADD:
 			r := e.concat(a, b)
 			r = e.define("cat", r)
-			e.assume(mk(sapp("=", sapp("slen", r.S), sapp("bvadd", sapp("slen", a.S), sapp("slen", b.S))), sBool))
-			e.assume(mk(fmt.Sprintf("(forall ((i (_ BitVec 64))) (! (=> (and (bvsle #x0000000000000000 i) (bvslt i (slen %s))) (= (sat %s i) (ite (bvslt i (slen %s)) (sat %s i) (sat %s (bvsub i (slen %s)))))) :pattern ((sat %s i))))", r.S, r.S, a.S, a.S, b.S, a.S, r.S), sBool))
+			// (a Go string longer than 2^62 bytes cannot exist; the length equation is stated for the representable case)
+			e.assume(mk(sapp("=>", sapp("and", sapp("bvult", sapp("slen", a.S), "#x2000000000000000"), sapp("bvult", sapp("slen", b.S), "#x2000000000000000")), sapp("=", sapp("slen", r.S), sapp("bvadd", sapp("slen", a.S), sapp("slen", b.S)))), sBool))
+			e.assume(mk(fmt.Sprintf("(forall ((i (_ BitVec 64))) (! (=> (and (bvult (slen %s) #x2000000000000000) (bvult (slen %s) #x2000000000000000) (bvsle #x0000000000000000 i) (bvslt i (slen %s))) (= (sat %s i) (ite (bvslt i (slen %s)) (sat %s i) (sat %s (bvsub i (slen %s)))))) :pattern ((sat %s i))))", a.S, b.S, r.S, r.S, a.S, a.S, b.S, a.S, r.S), sBool))
 			r.Op, r.Args = "sconcat", []*T{a, b}
 			return r
 		case token.EQL:
